@@ -3627,6 +3627,12 @@ impl Zeroconf {
         listener: Sender<HostnameResolutionEvent>,
         timeout: Option<u64>,
     ) {
+        if repeating && !self.hostname_resolvers.contains_key(&hostname.to_lowercase()) {
+            // The search was stopped or timed out after this retransmission was
+            // queued: SearchStopped has been sent, do not revive the search.
+            return;
+        }
+
         let addr_list: Vec<_> = self.my_intfs.iter().collect();
         if let Err(e) = listener.send(HostnameResolutionEvent::SearchStarted(format!(
             "{} on addrs {:?}",
